@@ -50,7 +50,8 @@ RULE = ("worlds: generated periodic structures (orthorhombic; a separate triclin
         "-p{default,0,0.5,1,0.25,1.5} x hints{none,(0,1,2),(2,0,1),(0,-,-)} x replicate{none,2 1 1,1 2 2} x mic{none,1x1x1,2x..,exact multiple,0,negative,tiny} x "
         "chargefile{no,yes} x pp{off,on} x mode{none,find,find+replace,replace-without-find} x input format x pattern "
         "format x output format; plus streams: docs examples (uio66), ASE in/out + dump file, no-cell rejections, "
-        "--framework-element (known finding); every case also feeds the execution tie and the argument-vector tie, plus 200 "
+        "--framework-element (known finding), LAMMPS inputs with atoms stored up to two cells outside the unit cell; every output is also "
+        "read by the check's own reader and compared with the INPUT DATA (unreplaced atoms keep element and stored coordinates); every case also feeds the execution tie and the argument-vector tie, plus 200 "
         "(quick) / 3000 (thorough) generated command lines, half of them with one defect. Non-trivial = distinct input in which at least one option beyond "
         "input/output reaches a library call.")
 
@@ -202,10 +203,24 @@ def gen_world(rng, cell_kind="ortho", in_fmt="lmpdat", pat_fmt="cml", out_fmt="l
         "repl": [{"el": e, "pos": [q(v) for v in mv(p)]} for e, p in R], "repl_bonds": [list(b) for b in rbonds],
         "chargefile": [q(Fraction(rng.randint(-16, 16), 32)) for _ in range(n)],
         "bonds": sbonds,
+        "nplanted": ncopies * len(P),        # the atoms after these belong to no copy of the pattern (bystanders)
         # with_bonds: the input file carries `bonds` (lmpdat / cif inputs); split_types: a LAMMPS input that types the
         # atoms of one element in two ways (labels X_a / X_b) — both matter for what a CIF writer has to get right
         "with_bonds": False, "split_types": False,
     }
+
+
+def move_outside(rng, world, prob=0.45):
+    """store some atoms up to two cells outside the unit cell (an unwrapped frame, as LAMMPS dumps it): every atom
+    independently, by a lattice vector, so the structure is the same periodic structure"""
+    cell = [[Fraction(v) for v in row] for row in world["cell"]]
+    for r in world["atoms"]:
+        if rng.random() < prob:
+            m = [rng.choice([-2, -1, 1, 2]) if rng.random() < 0.6 else 0 for _ in range(3)]
+            pos = [Fraction(v) for v in r["pos"]]
+            r["pos"] = [core.q(pos[c] + sum(m[k] * cell[k][c] for k in range(3))) for c in range(3)]
+    world["outside"] = True
+    return world
 
 
 def write_cml(path, rows, bonds):
@@ -1250,6 +1265,81 @@ def structure_from_mol(path):
     return out
 
 
+def oracle_against_input(path, world, o):
+    """"writes the structure unmodified": the file the command line wrote, read by the check's own reader, against the
+    INPUT DATA of the generated world (not against any other run of the library).  Without a replacement every input
+    atom (and every periodic image made by --replicate / --mic) stands in the output with its element, at its STORED
+    coordinates (not merely at a lattice-equivalent place), and nothing else does; with a replacement this is required
+    of the atoms that belong to no copy of the pattern.  None or text."""
+    import itertools
+    import numpy as np
+    if world.get("kind") != "gen" or o["dump"] or o["framework_element"]:
+        return None
+    sfx = suffix(path)
+    if sfx not in (".cif", ".lmpdat", ".mol"):
+        return None
+    fmt = world["in_fmt"]
+    has_cell = fmt in ("lmpdat", "cif") or bool(o["extract_uc"])
+    try:
+        got = structure_from_cif(path) if sfx == ".cif" else structure_from_lmpdat(path) if sfx == ".lmpdat" \
+            else structure_from_mol(path)
+    except Exception as e:
+        return "the written %s file cannot be read back by an independent reader: %r" % (sfx, e)
+    cell = np.array([[fl(v) for v in row] for row in world["cell"]]) if has_cell else None
+    dims = [1, 1, 1]
+    if o["replicate"]:
+        dims = [int(v) for v in o["replicate"]]
+    if o["mic"] is not None and cell is not None and cell_is_diag(cell.tolist()):
+        scaled = [[cell[i][j] * dims[i] for j in range(3)] for i in range(3)]
+        md, margin = spec_mic_dims(fl(o["mic"]), scaled)
+        if margin <= 1e-7:
+            return None
+        dims = [dims[i] * md[i] for i in range(3)]
+    if cell is None and dims != [1, 1, 1]:
+        return None
+    replace = bool(o["find"] and o["replace"])
+    rows = world["atoms"]
+    first_bystander = world.get("nplanted") if replace else 0
+    if first_bystander is None:
+        return None
+    if "cart" in got:
+        out_pos = got["cart"] - got.get("origin", 0.0) if False else got["cart"]
+    else:
+        out_pos = got["frac"].dot(got["cell"])
+        # the CIF cell is in the standard orientation; the worlds' cells are too (lower triangular)
+    out_el = list(got["elems"])
+    tol = 5e-3 if sfx == ".cif" else 2e-4 if sfx == ".mol" else 2e-5
+    modulo = fmt == "cif"                    # load_p1_cif wraps on load: only then a lattice-equivalent place is right
+    final_cell = None if cell is None else cell * np.array(dims).reshape(3, 1)
+    finv = None if final_cell is None else np.linalg.inv(final_cell)
+    used = np.zeros(len(out_el), dtype=bool)
+    expected = 0
+    for mult in itertools.product(range(dims[0]), range(dims[1]), range(dims[2])):
+        off = np.zeros(3) if cell is None else np.array(mult, dtype=float).dot(cell)
+        for k, r in enumerate(rows):
+            if k < first_bystander:
+                continue
+            expected += 1
+            x = np.array([fl(v) for v in r["pos"]]) + off
+            d = out_pos - x
+            if modulo and finv is not None:
+                f = d.dot(finv)
+                d = (f - np.round(f)).dot(final_cell)
+            ok = (np.abs(d).max(axis=1) <= tol) & (~used) & np.array([e == r["el"] for e in out_el])
+            idx = np.nonzero(ok)[0]
+            if len(idx) == 0:
+                near = np.abs(d).max(axis=1)
+                same = [i for i, e in enumerate(out_el) if e == r["el"]]
+                j = min(same, key=lambda i: near[i]) if same else None
+                return ("input atom %d (%s) stored at %s%s is not in the output at its stored coordinates%s" % (
+                    k, r["el"], [round(float(v), 5) for v in x], "" if mult == (0, 0, 0) else " (image %s)" % (mult,),
+                    "" if j is None else "; the nearest %s of the output is at %s" % (r["el"], [round(float(v), 5) for v in out_pos[j]])))
+            used[idx[0]] = True
+    if not replace and len(out_el) != expected:
+        return "the output holds %d atoms, the input (with its --replicate / --mic images) %d" % (len(out_el), expected)
+    return None
+
+
 def oracle_written(path, mem):
     """the property itself: the file the command line wrote, read back by a reader that shares nothing with mofun's
     writers, describes the structure the API route holds in memory — elements, charges, lattice (lengths and angles:
@@ -1798,6 +1888,13 @@ def run_case(world, o, seed):
                                              {"argv": [unsub(x, T) for x in argv(o, T)], "file_head": open(out_cli).read()[:1500]},
                                              "same elements, charges, lattice, positions and bonds by atom", []))
                         info["written_checked"] = suffix(out_cli)
+                    # "writes the structure unmodified" / bystanders untouched: against the INPUT DATA, own reader
+                    bad = oracle_against_input(out_cli, world, o)
+                    if bad:
+                        failures.append(("the file written by the command line is not the input structure"
+                                         + (" outside the replaced patterns" if (o["find"] and o["replace"]) else "")
+                                         + ": " + bad, {"argv": [unsub(x, T) for x in argv(o, T)]},
+                                         "every input atom that is not replaced keeps its element and its stored coordinates", []))
                     # --pp, independent expectation on the WRITTEN file (LAMMPS data files carry labels and Pair Coeffs)
                     pev = [e for e in events if e["k"] == "assign_pair" and "elements" in e]
                     if o["pp"] and pev and a is not None and suffix(out_cli) == ".lmpdat" and "types" in a:
@@ -1905,6 +2002,8 @@ def generated_cases(ctx, nworlds):
             if key not in worlds:
                 worlds[key] = gen_world(rng, "ortho", *key)
                 worlds[key]["with_bonds"] = key[0] in ("lmpdat", "cif") and rng.random() < 0.5
+                if key[0] == "lmpdat" and rng.random() < 0.5:
+                    move_outside(rng, worlds[key])          # an unwrapped LAMMPS frame: atoms stored outside the cell
             w = worlds[key]
             out.append((w, opts_of_row(row, w), rng.randint(0, 10 ** 6), "pairwise"))
     return out
@@ -1930,6 +2029,14 @@ def extra_cases(ctx):
             row = {"atol": None, "p": rng.choice([None, "0.5"]), "hints": "none", "replicate": rng.choice([None, [2, 1, 1], [1, 1, 2]]),
                    "mic": None, "q": rng.random() < 0.5, "pp": False, "mode": mode}
             out.append((w, opts_of_row(row, w), rng.randint(0, 10 ** 6), "lattice+bonds"))
+    # LAMMPS inputs with atoms stored up to two cells OUTSIDE the unit cell (load_lmpdat does not wrap): a find-only run
+    # writes them where they are stored, a replacement leaves the bystanders where they are stored
+    for kind, outf in (("ortho", "lmpdat"), ("ortho", "cif"), ("tri", "lmpdat")):
+        w = move_outside(rng, gen_world(rng, kind, "lmpdat", rng.choice(["cml", "lmpdat"]), outf))
+        for mode in ("find", "replace", "none"):
+            row = {"atol": None, "p": None, "hints": rng.choice(["none", "012"]), "replicate": rng.choice([None, [2, 1, 1]]),
+                   "mic": None, "q": rng.random() < 0.3, "pp": False, "mode": mode}
+            out.append((w, opts_of_row(row, w), rng.randint(0, 10 ** 6), "outside-cell"))
     # a LAMMPS input that types one element in two ways, bonds present, written as CIF (and as LAMMPS data)
     for kind, outf in (("ortho", "cif"), ("tri", "cif"), ("ortho", "lmpdat")):
         w = gen_world(rng, kind, "lmpdat", "cml", outf)
